@@ -292,6 +292,18 @@ static void run_case(void *ctx, mx_result_t *r)
             memcpy(tmp + o2, g->seed, (size_t) g->seed_len);
             o2 += g->seed_len;
         }
+        else if (e->val >= 2)
+        {
+            /* val 2 / 3: behind the ChangeCipherSpec records only the HEADER of a handshake record that announces 0x0100 /
+               0xffff bytes - and the buffer ends there */
+            tmp[o2++] = 22; tmp[o2++] = dtls ? 0xfe : 3; tmp[o2++] = dtls ? 0xfd : 3;
+            if (dtls)
+            {
+                memset(tmp + o2, 0, 8); tmp[o2 + 7] = 0x6f; o2 += 8;
+            }
+            tmp[o2++] = e->val == 2 ? 0x01 : 0xff; tmp[o2++] = e->val == 2 ? 0x00 : 0xff;
+            consumed_seed = 0;
+        }
         else
         {
             consumed_seed = 0;
@@ -909,6 +921,8 @@ static void run_group(long gi, void *unused)
             {
                 fork_edit(&g, E_CCSN, k, 0);
                 fork_edit(&g, E_CCSN, k, 1);
+                fork_edit(&g, E_CCSN, k, 2);
+                fork_edit(&g, E_CCSN, k, 3);
             }
             /* structure-preserving resize of every length-prefixed vector of a plaintext handshake unit */
             {
